@@ -5,7 +5,7 @@ V = os.path.dirname(os.path.dirname(os.path.abspath(__file__)))
 sys.path.insert(0, V)
 
 CHECKS = {
- "C01": ("exploration", "6", "Seeded simulation: every root type and every command code x framing swept once, then seeded sampling with swarm knobs; the strict decode recorded by the simulator is compared item by item with an independent reference interpreter over a pinned layout snapshot. Sampling, not proof: values and sizes are sampled, the structural space (types, union arms, command x configuration) is swept and reported by counters.",
+ "C01": ("exploration", "6", "Seeded simulation: every root type and every command code x framing swept once, then seeded sampling with swarm knobs; the strict decode recorded by the simulator is compared item by item with an independent reference interpreter over a pinned layout snapshot, and the text form of every valid value with the pinned text forms. Sampling, not proof: values and sizes are sampled, the structural space (types, union arms, command x configuration) is swept and reported by counters.",
          "seeded traffic generator + reference-model refinement over the recorded history (deterministic simulation; scheduler / source kind as perturbations)"),
  "C02": ("exploration", "6", "Same runs as C01 plus warn-mode runs with value-only faults; the re-encoder runs as a lazy consumer task of the decoder; chunks are compared with the input slices at the reference offsets.",
          "seeded traffic + value faults; re-encoder as consumer stage; reference offsets"),
@@ -27,13 +27,13 @@ CHECKS = {
          "history-based simulation: stream task vs per-message tasks; pull-count boundary invariant"),
  "C10": ("exploration", "6", "Per-event look-ahead invariant checked from the simulator-owned pull counter while the run proceeds (binary source, hex and swtpm-log character sources, short-read files); prefix stability at crash points; equality across 9 source kinds, short-read files and multi-file streams.",
          "byte-source seam with pull counting, crash points, source-kind swarm"),
- "C11": ("exploration", "6", "Decoder object vs events_to_obj, obj_to_events of both vs decoded events (==, lengths, value classes), re-encoding, Canonical facade, on swept and sampled well-formed inputs biased to absent parts, with bystander decodes in between.",
+ "C11": ("exploration", "6", "Decoder object vs events_to_obj, obj_to_events of both vs decoded events (==, lengths, value classes), re-encoding, Canonical facade, on swept and sampled well-formed inputs biased to absent parts, with bystander decodes in between; events / objects of messages decoded many runs earlier in the same process are converted again later (decode now, convert later).",
          "seeded traffic + round-trip oracles inside scheduled runs"),
- "C12": ("exploration", "6", "2-4 decode tasks per run over messages with encrypted parameter areas of different commands, histories A,B,A / A,A / A,B,C,A and step-wise interleavings incl. pre-emption inside a byte pull and cancelled bystanders; every decode is compared (==, type identity) with solo decodes of the same arguments at the start and the end of the run and with stream slices.",
+ "C12": ("exploration", "6", "2-4 decode tasks per run over messages with encrypted parameter areas of different commands, histories A,B,A / A,A / A,B,C,A and step-wise interleavings incl. pre-emption inside a byte pull and cancelled bystanders; every decode is compared (==, type identity) with solo decodes of the same arguments at the start and the end of the run and with stream slices; bystanders request parameter encryption on arbitrary commands; long-lived probe messages decoded when a worker process starts are re-decoded hundreds of runs later and compared with the results kept since then.",
          "seeded scheduler over generator tasks sharing process-global state (the property the scheduler exists for)"),
- "C14": ("exploration", "6", "Printers run as lazy consumer tasks over strict and warn decodes of all input families; rows are parsed by tokens and matched against rows derived independently from the recorded events (one row per structure/primitive/warning, one per byte buffer, bit rows, depth, hex column, text form).",
+ "C14": ("exploration", "6", "Printers run as lazy consumer tasks over strict and warn decodes of all input families; rows are parsed by tokens and matched against rows derived independently from the recorded events (one row per structure/primitive/warning, one per byte buffer, bit rows, depth, hex column, text form against the pinned text forms; a list without element events must keep its own row).",
          "consumer-stage simulation over fault-injected event streams; token-level row oracle"),
- "C15": ("exploration", "6", "Generated streams rendered into hex / swtpm-log / pcapng containers by independent writers with seeded noise (interleaved control channel, runt packets, mssim trailer, Ethernet/raw-IP), container faults (torn pair, non-hex incl. int()-syntax characters, lower case), small-alphabet strings for the hex scanner; front-end vs direct decode; Auto vs matching front-end; ValueError for non-hex text.",
+ "C15": ("exploration", "6", "Generated streams rendered into hex / swtpm-log / pcapng containers by independent writers with seeded noise (interleaved control channel, runt packets, mssim trailer, Ethernet/raw-IP), container faults (torn pair, non-hex incl. int()-syntax characters, lower case), malformed traffic (size / length / medium faults on individual messages) inside well-formed containers, small-alphabet strings for the hex scanner; front-end vs direct decode; Auto vs matching front-end; ValueError for non-hex text.",
          "container writer noise + torn/garbled storage faults; independent reference readers"),
  "C19": ("exploration", "6", "CLI invocations in-process (patched argv/stdin with short reads/stdout, real temp files, multi-file streams) compared with library results for the same bytes; refusals; `type` against a strict decode under every type; `example` blocks re-decoded; a quota re-run as real subprocesses to validate the harness.",
          "process-I/O seam simulation (argv, files, stdin short reads, stdout, exit status) + differential oracle"),
